@@ -4,21 +4,31 @@
   Spec/Rfc9171.lean: field order of §4.3.1 / §4.3.2, EIDs as [scheme, ssp], btsd in a byte string,
   CRC last, indefinite outer array; Spec/Crc.lean: catalogue-parameter CRC).
 
-  The structural part is proved outright. The CRC *values* inside the bytes are equal provided the
-  two CRC definitions agree (`CrcAgree`: reflected bit-serial model of the `crc` crate vs the
-  MSB-first catalogue-parameter reference) — that agreement is established by check values and by
-  the correspondence run (`crc16`/`crc32` ops), not by a theorem; hence `…_partial`.
+  The CRC *values* inside the bytes are equal because the two CRC definitions agree (`crcAgree`:
+  the reflected bit-serial model of the `crc` crate computes the same function as the MSB-first
+  catalogue-parameter reference, Lemmas/CrcAgree.lean: the registers are bit reversals of each
+  other after every step). `encode_eq_spec_partial` is kept as the statement relative to that
+  agreement; `encode_eq_spec` is the unconditional theorem.
 -/
 import Bp7.Lemmas.SpecEq
+import Bp7.Lemmas.CrcAgree
 namespace Bp7.C02
 open Bp7
 
 /-- the full statement -/
 def EncodeEqSpec : Prop := ∀ b : Bundle, b.wf = true → (b.toCbor).2 = Spec.encode b
 
-/-- **C02 (partial).** Missing: a proof of `CrcAgree`. -/
+/-- C02 relative to the agreement of the two CRC definitions -/
 theorem encode_eq_spec_partial (hag : CrcAgree) : EncodeEqSpec :=
   fun b h => toCbor_eq_spec hag b h
+
+/-- the model CRC (reflected, as the `crc` crate computes it) is the catalogue-parameter CRC -/
+theorem crcAgree : CrcAgree := ⟨CrcAgreeProof.crc16_agree, CrcAgreeProof.crc32c_agree⟩
+
+/-- **C02.** For every well-formed bundle — any flags, EIDs, block lists, data sizes and CRC types,
+    any prior CRC values — the emitted bytes are exactly the RFC 9171 encoding produced by the
+    independent reference, CRC values included. -/
+theorem encode_eq_spec : EncodeEqSpec := encode_eq_spec_partial crcAgree
 
 /-- **C02 (blocks, unconditional).** Every primary block is written as the definite array of its
     §4.3.1 fields in order, followed by the stored CRC value as a byte string iff it has one. -/
